@@ -270,6 +270,13 @@ def scenario_module(rng, tok: Tok):
             unnamed += 1
         exp.append((ln, f"@result {nm_ or 'result_' + str(unnamed)} "))
     gt["mixed_results"] = {"kind": "raw", "expected": {"numpydoc": exp}}
+    # fewer documented results than annotated ones (each documented type occurs among the annotated ones)
+    few = [("count", "int", tok.line(rng, "r")), ("label", "str", tok.line(rng, "r"))]
+    gt["fewer_documented"] = {"kind": "raw", "expected": {"numpydoc": [(ln, f"@result {nm_} ") for nm_, _t, ln in few], "rest": [(few[0][2], "@result result_1 ")]}}
+    few_docs = {
+        "numpydoc": "Fewer.\n\nReturns\n-------\n" + "".join(f"{nm_} : {t}\n    {ln}\n" for nm_, t, ln in few),
+        "rest": f"Fewer.\n\n:returns: {few[0][2]}\n:rtype: int\n",
+    }
     mixed_doc = "Mixed.\n\nReturns\n-------\n" + "".join((f"{nm_} : {t}\n" if nm_ else f"{t}\n") + f"    {ln}\n" for nm_, t, ln in mixed)
 
     def render(style: str) -> str:
@@ -286,6 +293,7 @@ def scenario_module(rng, tok: Tok):
             f"import dataclasses\n\n\n@dataclasses.dataclass(order=True)\nclass ScnOrdered:\n{pydoc(dc_doc.render(style), '    ')}\n    size: int = 0\n\n"
             f"    def __init__(self, size: int = 0) -> None:\n        self.size = size\n\n"
             f"    def compare_with(self, other: int) -> int:\n{pydoc(dc_last.render(style), '        ')}        return other\n"
+            + f"\n\ndef fewer_documented() -> tuple[int, str, float]:\n{pydoc(few_docs[style], '    ') if style in few_docs else ''}    return 1, 'a', 1.0\n"
             + (f"\n\ndef mixed_results() -> tuple[int, str, bool, float]:\n{pydoc(mixed_doc, '    ')}    return 1, 'a', True, 1.0\n" if style == "numpydoc" else "\n\ndef mixed_results() -> tuple[int, str, bool, float]:\n    return 1, 'a', True, 1.0\n")
         )
 
